@@ -1,63 +1,66 @@
 (* C03 for MDCPDP -- the reported reward is the objective of the executed solution. Statements only.
-   md_reward A F i s = what _get_reward returns on the final TensorDict s (None = it raises), in units of [one i];
-   md_objective = minus the cost of the routes read off the action list alone (Spec/MultiDepotPD.v):
-   mode 0 sum of the closed (or open) route lengths, mode 1 the longest route, mode 2 (1 - w) * sum + w * sum of the
-   distances travelled by the vehicles when they reach each delivery node. *)
+   md_reward A F i s = what _get_reward returns on the final TensorDict s (None = it raises), in units of [one i]
+   (mode 3: [one i]^2); md_objective = minus the cost of the routes read off the action list alone
+   (Spec/MultiDepotPD.v): mode 0 sum of the closed (or open) route lengths, mode 1 the longest route,
+   mode 2 (1 - w) * sum + w * (sum of the distances travelled by the vehicles when they reach each delivery node),
+   mode 3 the same with the SQUARES of those distances.
+   The running code is [repaired] (defects recorded as fixed in known_findings.json); [as_is] statements are history. *)
 From Coq Require Import ZArith List Bool.
 From RL4CO Require Import Base.Num Base.EnvSig Spec.MultiDepotPD Env.MDCPDP Env.MDCPDPDefs Env.MDCPDPProofs Env.MDCPDPRefuted.
 Import ListNotations.
 Open Scope Z_scope.
 
-(* all three implemented modes, closed and open problem: when the row is stepped alone (or the step-length repair
-   fx_leg is in), and the return leg is accounted for (repair fx_ret, or the problem is open), the reward of a
-   finished row is the objective of its episode *)
+(* all four reward modes (minsum, minmax, lateness, lateness_square), closed and open problem, any documented capacity
+   format, any start depot, any batch position: the reward of a finished row is the objective of its episode *)
 Theorem C03_mdcpdp_reward_is_objective :
-  forall (F : mdfix) (i : md_inst) (acts : list nat),
-    md_wfb i = true -> md_good F i = true -> solo i || fx_leg F = true ->
-    adm (E:=MDCPDP exact F) i acts = true ->
-    (forall p q, acts = p ++ q -> q <> [] -> done (MDCPDP exact F) i (run (E:=MDCPDP exact F) i p) = false) ->
-    done (MDCPDP exact F) i (run (E:=MDCPDP exact F) i acts) = true ->
-    fx_ret F = true \/ opn i = true -> (mode i < 3)%nat ->
-    md_reward exact F i (run (E:=MDCPDP exact F) i acts)
-    = md_objective (ndep i) (nloc i / 2) (fun a b => mget (dist i) a b) (opn i) (mode i) (one i) (lw i) acts.
-Proof. intros F i acts Hwf Hg Hs. exact (md_reward_is_objective F i Hwf Hg Hs acts). Qed.
-Print Assumptions C03_mdcpdp_reward_is_objective.
-
-(* the code after the repairs: every instance, every batch position *)
-Theorem C03_mdcpdp_reward_is_objective_repaired :
   forall (i : md_inst) (acts : list nat),
     md_wfb i = true ->
     adm (E:=MDCPDP exact repaired) i acts = true ->
     (forall p q, acts = p ++ q -> q <> [] -> done (MDCPDP exact repaired) i (run (E:=MDCPDP exact repaired) i p) = false) ->
     done (MDCPDP exact repaired) i (run (E:=MDCPDP exact repaired) i acts) = true ->
-    (mode i < 3)%nat ->
-    md_reward exact repaired i (run (E:=MDCPDP exact repaired) i acts) = spec_objective i acts.
+    (mode i <= 3)%nat ->
+    md_reward exact repaired i (run (E:=MDCPDP exact repaired) i acts)
+    = md_objective (ndep i) (nloc i / 2) (fun a b => mget (dist i) a b) (opn i) (mode i) (one i) (lw i) acts.
 Proof.
-  intros i acts Hwf Ha Hl Hd Hm. apply (md_reward_is_objective repaired i Hwf (repaired_good i)); auto.
-  cbn. apply Bool.orb_true_r.
+  intros i acts Hwf Ha Hl Hd Hm.
+  exact (md_reward_is_objective repaired i Hwf (repaired_good i) (repaired_solo i) acts Ha Hl Hd (or_introl eq_refl) (repaired_mode_ok i Hm)).
 Qed.
-Print Assumptions C03_mdcpdp_reward_is_objective_repaired.
+Print Assumptions C03_mdcpdp_reward_is_objective.
 
-(* the code as it is, single depot, row stepped alone: the reward is the objective once the finished row has been
-   stepped at least once more (any number k >= 1 of padding steps; closed and open problem) *)
-Theorem C03_mdcpdp_as_is_single_depot_after_padding :
-  forall (i : md_inst) (acts : list nat) (k : nat),
-    md_wfb i = true -> ndep i = 1%nat -> length (caps i) = 1%nat -> start i = 0%nat -> solo i = true ->
-    adm (E:=MDCPDP exact as_is) i acts = true ->
-    (forall p q, acts = p ++ q -> q <> [] -> done (MDCPDP exact as_is) i (run (E:=MDCPDP exact as_is) i p) = false) ->
-    done (MDCPDP exact as_is) i (run (E:=MDCPDP exact as_is) i acts) = true ->
-    (1 <= k)%nat -> (mode i < 3)%nat ->
-    md_reward exact as_is i (run (E:=MDCPDP exact as_is) i (acts ++ repeat (depot (run (E:=MDCPDP exact as_is) i acts)) k))
-    = spec_objective i acts.
+(* reward_mode = "lateness_square" spelled out: the reward is minus
+   (1 - w) * (sum of the route lengths) + w * (sum over delivery nodes of the squared distance travelled on arrival) *)
+Theorem C03_mdcpdp_lateness_square_is_objective :
+  forall (i : md_inst) (acts : list nat) (ps : pstate),
+    md_wfb i = true -> mode i = 3%nat ->
+    adm (E:=MDCPDP exact repaired) i acts = true ->
+    (forall p q, acts = p ++ q -> q <> [] -> done (MDCPDP exact repaired) i (run (E:=MDCPDP exact repaired) i p) = false) ->
+    done (MDCPDP exact repaired) i (run (E:=MDCPDP exact repaired) i acts) = true ->
+    parse (ndep i) acts = Some ps ->
+    md_reward exact repaired i (run (E:=MDCPDP exact repaired) i acts)
+    = Some (- (one i * (one i - lw i) * sumZ (map (route_length (ndep i) (nloc i / 2) (fun a b => mget (dist i) a b) (opn i)) (all_routes ps))
+               + lw i * sumZ (map (route_late_sq (ndep i) (nloc i / 2) (fun a b => mget (dist i) a b)) (all_routes ps)))).
 Proof.
-  intros i acts k Hwf H1 H2 H3 Hs Ha Hl Hd Hk Hm.
-  assert (Hg : md_good as_is i = true) by (apply as_is_good; auto).
-  assert (Hs' : solo i || fx_leg as_is = true) by (rewrite Hs; reflexivity).
-  destruct (md_padding as_is i Hwf Hg Hs' acts k Ha Hl Hd) as (_ & _ & _ & H). apply H; assumption.
+  intros i acts ps Hwf Hm Ha Hl Hd Hp.
+  rewrite (md_reward_is_objective repaired i Hwf (repaired_good i) (repaired_solo i) acts Ha Hl Hd (or_introl eq_refl) (repaired_mode_ok i ltac:(rewrite Hm; apply le_n))).
+  unfold spec_objective, md_objective, md_cost, hh, dfun. rewrite Hp, Hm. reflexivity.
 Qed.
-Print Assumptions C03_mdcpdp_as_is_single_depot_after_padding.
+Print Assumptions C03_mdcpdp_lateness_square_is_objective.
 
-(* the code as it is, without the padding step: the way home is missing (tour 0 -> 3 -> 7 -> 0 on a line: -7, not -14) *)
+(* the same for any subset F of the repairs: under [md_good F i], for a row stepped alone or with fx_leg, with the return
+   leg accounted for (fx_ret or open problem), and a mode the code computes (mode <= 2, or 3 with fx_sq) *)
+Theorem C03_mdcpdp_reward_is_objective_any_repair_set :
+  forall (F : mdfix) (i : md_inst) (acts : list nat),
+    md_wfb i = true -> md_good F i = true -> solo i || fx_leg F = true ->
+    adm (E:=MDCPDP exact F) i acts = true ->
+    (forall p q, acts = p ++ q -> q <> [] -> done (MDCPDP exact F) i (run (E:=MDCPDP exact F) i p) = false) ->
+    done (MDCPDP exact F) i (run (E:=MDCPDP exact F) i acts) = true ->
+    fx_ret F = true \/ opn i = true -> md_mode_ok F i = true ->
+    md_reward exact F i (run (E:=MDCPDP exact F) i acts) = spec_objective i acts.
+Proof. intros F i acts Hwf Hg Hs. exact (md_reward_is_objective F i Hwf Hg Hs acts). Qed.
+Print Assumptions C03_mdcpdp_reward_is_objective_any_repair_set.
+
+(* ---------------------------------------------------------------- HISTORY: the code before the repairs ([as_is]) *)
+(* without a padding step the way home was missing (tour 0 -> 3 -> 7 -> 0 on a line: -7, not -14) *)
 Theorem C03_mdcpdp_refuted_return_leg :
   exists i acts, md_wfb i = true /\ md_good as_is i = true /\ adm (E:=MDCPDP exact as_is) i acts = true /\ live as_is i acts /\
                  done (MDCPDP exact as_is) i (run (E:=MDCPDP exact as_is) i acts) = true /\
@@ -65,7 +68,7 @@ Theorem C03_mdcpdp_refuted_return_leg :
 Proof. exact md_reward_refuted_return_leg. Qed.
 Print Assumptions C03_mdcpdp_refuted_return_leg.
 
-(* the code as it is, two depots: all lengths are booked on the start depot, the min-max cost is the total (14, not 4) *)
+(* two depots: all lengths were booked on the start depot, the min-max cost was the total (14, not 4) *)
 Theorem C03_mdcpdp_refuted_minmax_booked_on_start_depot :
   exists i acts e, md_wfb i = true /\ length (caps i) = ndep i /\ adm (E:=MDCPDP exact as_is) i (acts ++ [e]) = true /\ live as_is i acts /\
                    done (MDCPDP exact as_is) i (run (E:=MDCPDP exact as_is) i acts) = true /\
@@ -73,7 +76,7 @@ Theorem C03_mdcpdp_refuted_minmax_booked_on_start_depot :
 Proof. exact md_reward_refuted_minmax_booked_on_start_depot. Qed.
 Print Assumptions C03_mdcpdp_refuted_minmax_booked_on_start_depot.
 
-(* the code as it is, in a batch: the row adds the step lengths of batch row 0 (300 instead of 14) *)
+(* in a batch the row added the step lengths of batch row 0 (300 instead of 14) *)
 Theorem C03_mdcpdp_refuted_row0_lengths :
   exists i l0 acts, md_wfb i = true /\ md_good as_is i = true /\
      md_reward exact as_is (with_batch i true []) (run (E:=MDCPDP exact as_is) (with_batch i true []) acts) = Some (-14) /\
@@ -81,18 +84,27 @@ Theorem C03_mdcpdp_refuted_row0_lengths :
 Proof. exact md_row_independent_refuted. Qed.
 Print Assumptions C03_mdcpdp_refuted_row0_lengths.
 
-(* reward_mode = "lateness_square" (documented, accepted by the constructor) always raises *)
-Theorem C03_mdcpdp_lateness_square_raises :
-  forall (A : arith) (F : mdfix) (i : md_inst) (s : md_st), mode i = 3%nat -> md_reward A F i s = None.
-Proof. exact md_reward_lateness_square_raises. Qed.
-Print Assumptions C03_mdcpdp_lateness_square_raises.
+(* reward_mode = "lateness_square" always raised *)
+Theorem C03_mdcpdp_refuted_lateness_square_raised :
+  forall (A : arith) (i : md_inst) (s : md_st), mode i = 3%nat -> md_reward A as_is i s = None.
+Proof. exact md_reward_lateness_square_raised. Qed.
+Print Assumptions C03_mdcpdp_refuted_lateness_square_raised.
 
-(* non-vacuity: lateness mode with weight 1/2 (one = 2, lw = 1) on a line, two depots, repaired code *)
+(* non-vacuity: two depots on a line, generator capacity format, row inside a batch (solo = false), weight 1/2 (one = 2, lw = 1):
+   lateness: 1 * 8 + 1 * (2 + 2) = 12; lateness_square (units one^2): 2 * 1 * 8 + 1 * (4 + 4) = 24 *)
 Example C03_mdcpdp_nonvacuous :
-  let i := {| ndep := 2; nloc := 4; caps := [1; 1]; dist := line_dist [0; 10; 1; 9; 2; 8]; start := 0; opn := false; mode := 2;
+  let i := {| ndep := 2; nloc := 4; caps := [1]; dist := line_dist [0; 10; 1; 9; 2; 8]; start := 0; opn := false; mode := 2;
               one := 2; lw := 1; solo := false; legs0 := [] |} in
   let acts := [0; 2; 4; 0; 1; 3; 5]%nat in
   md_wfb i = true /\ adm (E:=MDCPDP exact repaired) i acts = true /\ liveb repaired i acts = true /\
   done (MDCPDP exact repaired) i (run (E:=MDCPDP exact repaired) i acts) = true /\
   md_reward exact repaired i (run (E:=MDCPDP exact repaired) i acts) = Some (-12) /\ spec_objective i acts = Some (-12).
+Proof. vm_compute. repeat split; reflexivity. Qed.
+Example C03_mdcpdp_nonvacuous_square :
+  let i := {| ndep := 2; nloc := 4; caps := [1]; dist := line_dist [0; 10; 1; 9; 2; 8]; start := 1; opn := false; mode := 3;
+              one := 2; lw := 1; solo := false; legs0 := [] |} in
+  let acts := [0; 2; 4; 0; 1; 3; 5]%nat in
+  md_wfb i = true /\ adm (E:=MDCPDP exact repaired) i acts = true /\ liveb repaired i acts = true /\
+  done (MDCPDP exact repaired) i (run (E:=MDCPDP exact repaired) i acts) = true /\
+  md_reward exact repaired i (run (E:=MDCPDP exact repaired) i acts) = Some (-24) /\ spec_objective i acts = Some (-24).
 Proof. vm_compute. repeat split; reflexivity. Qed.
